@@ -71,6 +71,16 @@ FIXED.append(
                       ['range', 'A1:A2']]], ['ref', 'B1']]},
      'sheets': ['Sheet1'],
      'names': {'Rate': 'Sheet1!A1', 'Total': 'Sheet1!C1'}})
+FIXED.append(
+    # twin sheets: character-identical formula texts whose unqualified
+    # references mean different cells; inputs of either sheet change
+    {'inputs': {'Sheet1!A1': 1, 'Sheet1!A2': 2, 'Sheet2!A1': 10,
+                'Sheet2!A2': 20},
+     'formulas': {'Sheet1!A3': ['call', 'SUM', [['range', 'A1:A2']]],
+                  'Sheet2!A3': ['call', 'SUM', [['range', 'A1:A2']]],
+                  'Sheet1!B1': ['op', '*', ['ref', 'A1'], ['num', '2']],
+                  'Sheet2!B1': ['op', '*', ['ref', 'A1'], ['num', '2']]},
+     'sheets': ['Sheet1', 'Sheet2'], 'setvals': [50]})
 for _m in FIXED:
     _m['order'] = list(_m['formulas'])
 PLACEHOLDER = 987654321
